@@ -13,6 +13,11 @@
 //!         tee_worker   the same tee behind a WorkerSink
 //!       The #[aggregate] struct has a Sum, a KeepLast, a Histogram<Duration, SortAndMerge> and a
 //!       Distribution field, a key whose Hash is constant and a String key.
+//!   agg mutexrace --scenarios s.ndjson --out trace.ndjson --meta meta.ndjson
+//!       T direction, mutex-shared sink: 1-3 merger threads drop CloseAndMergeOnDrop guards of (or merge
+//!       directly into) a MutexSink<Aggregate<Mx>> while the main thread closes parent entries that
+//!       embed it; a user-defined slow field strategy widens the merge window; validated by TLC
+//!       against MutexTrace.tla.
 //!   agg record --scenarios s.ndjson --out trace.ndjson --meta meta.ndjson
 //!       T direction: 2-4 producer threads on a WorkerSink around a sentinel-wrapped
 //!       KeyedAggregator; sends, flush requests, the worker's merges / flushes / downstream
@@ -1070,14 +1075,193 @@ fn cmd_record(a: &HashMap<String, String>) {
     std::process::exit(0);
 }
 
+// ------------------------------------------------------------------------------------------
+// mutexrace: merges into a MutexSink<Aggregate<T>> racing closes of the parent entry (T direction)
+// ------------------------------------------------------------------------------------------
+
+/// how long `SlowSum::insert` stays inside the merge (= while the sink's mutex is held), in ns
+static SLOW_NS: std::sync::atomic::AtomicU64 = std::sync::atomic::AtomicU64::new(0);
+
+/// user-defined field strategy: a sum whose insert takes a while (widens the merge window; there
+/// are no verification points inside metrique-aggregation)
+pub struct SlowSum;
+impl AggregateValue<u64> for SlowSum {
+    type Aggregated = u64;
+    fn insert(accum: &mut u64, value: u64) {
+        let ns = SLOW_NS.load(std::sync::atomic::Ordering::Relaxed);
+        if ns > 0 {
+            let t = Instant::now();
+            while (t.elapsed().as_nanos() as u64) < ns {
+                std::hint::spin_loop();
+            }
+        }
+        *accum += value;
+    }
+}
+
+#[aggregate]
+#[metrics]
+pub struct Mx {
+    /// 1 << id: the emitted sum is the set of inputs the aggregate contains
+    #[aggregate(strategy = SlowSum)]
+    mask: u64,
+    #[aggregate(strategy = Distribution)]
+    idobs: u64,
+    #[aggregate(strategy = Sum)]
+    n: u64,
+}
+
+#[metrics]
+struct ParentMx {
+    #[metrics(flatten)]
+    agg: MutexSink<Aggregate<Mx>>,
+    tag: u64,
+}
+
+#[derive(serde::Deserialize, Clone, Debug)]
+struct MxScen {
+    id: u64,
+    /// inputs per merger thread
+    mergers: Vec<u64>,
+    /// closes made while the mergers run, each after this many further microseconds
+    closes_us: Vec<u64>,
+    slow_ns: u64,
+    #[serde(default)]
+    pace_us: u64,
+    #[serde(default)]
+    seed: u64,
+}
+
+fn run_mx(sc: &MxScen) {
+    trace::ev(json!({"ev": "Reset", "scenario": sc.id as i64}));
+    SLOW_NS.store(sc.slow_ns, std::sync::atomic::Ordering::Relaxed);
+    let sink: MutexSink<Aggregate<Mx>> = MutexSink::new(Aggregate::default());
+    let start = Arc::new(std::sync::Barrier::new(sc.mergers.len() + 1));
+    let mut threads = Vec::new();
+    let mut first = 0u64;
+    for (mi, n) in sc.mergers.iter().enumerate() {
+        let (n, f0) = (*n, first);
+        first += n;
+        let start = start.clone();
+        let pace = sc.pace_us;
+        let mut rng = util::rng(sc.seed ^ (mi as u64 + 1));
+        // the guards are created here and dropped (= merged) on the merger thread
+        let mut guards: Vec<(u64, Option<metrique_aggregation::sink::CloseAndMergeOnDrop<Mx, MutexSink<Aggregate<Mx>>>>)> = Vec::new();
+        for j in 0..n {
+            let id = f0 + j;
+            let g = if rng.random_range(0..3) > 0 { Some(Mx { mask: 1u64 << id, idobs: id, n: 1 }.close_and_merge(sink.clone())) } else { None };
+            guards.push((id, g));
+        }
+        let direct = sink.clone();
+        threads.push(std::thread::spawn(move || {
+            start.wait();
+            for (id, g) in guards {
+                trace::evi("MergeStart", &[("i", id as i64)]);
+                match g {
+                    Some(g) => drop(g),
+                    None => RootSink::merge(&direct, Mx { mask: 1u64 << id, idobs: id, n: 1 }.close()),
+                }
+                trace::evi("MergeEnd", &[("i", id as i64)]);
+                if pace > 0 {
+                    std::thread::sleep(Duration::from_micros(pace));
+                }
+            }
+        }));
+    }
+    assert!(first <= 60);
+    let close = |c: i64| {
+        trace::evi("CloseStart", &[("c", c)]);
+        let e = test_metric(ParentMx { agg: sink.clone(), tag: c as u64 });
+        let mask = e.metrics.get("mask").map(|m| m.distribution.iter().map(|o| match o {
+            Observation::Unsigned(v) => *v,
+            Observation::Floating(f) => *f as u64,
+            Observation::Repeated { total, .. } => *total as u64,
+            _ => 0,
+        }).sum::<u64>()).unwrap_or(0);
+        let sum_ids: Vec<i64> = (0..63).filter(|b| mask & (1u64 << b) != 0).collect();
+        let obs = metric_list(&e, "idobs");
+        let n = e.metrics.get("n").map(|m| m.as_u64()).unwrap_or(0);
+        trace::ev(json!({"ev": "CloseEnd", "c": c, "sum": sum_ids, "obs": obs, "n": n as i64}));
+    };
+    start.wait();
+    let mut c = 0i64;
+    for us in &sc.closes_us {
+        std::thread::sleep(Duration::from_micros(*us));
+        c += 1;
+        close(c);
+    }
+    for t in threads {
+        let _ = t.join();
+    }
+    // everything has been merged: the last close must emit whatever the earlier ones did not
+    close(c + 1);
+    trace::evi("Quiesce", &[]);
+    SLOW_NS.store(0, std::sync::atomic::Ordering::Relaxed);
+}
+
+/// search hint: MergeStart.h = the close whose aggregate contained the input (0 = none)
+fn annotate_mx(evs: &mut [Value]) {
+    let mut by: HashMap<i64, i64> = HashMap::new();
+    for e in evs.iter() {
+        if e["ev"] == "CloseEnd" {
+            for i in e["sum"].as_array().unwrap() {
+                by.entry(i.as_i64().unwrap()).or_insert(e["c"].as_i64().unwrap());
+            }
+        }
+    }
+    for e in evs.iter_mut() {
+        if e["ev"] == "MergeStart" {
+            let h = by.get(&e["i"].as_i64().unwrap()).copied().unwrap_or(0);
+            e["h"] = json!(h);
+        }
+    }
+}
+
+fn cmd_mutexrace(a: &HashMap<String, String>) {
+    let scen = util::read_ndjson(util::arg_str(a, "scenarios", ""));
+    let mut out = std::io::BufWriter::new(std::fs::File::create(util::arg_str(a, "out", "")).unwrap());
+    let mut meta = std::io::BufWriter::new(std::fs::File::create(util::arg_str(a, "meta", "")).unwrap());
+    let mut line = 1usize;
+    for v in scen {
+        let sc: MxScen = serde_json::from_value(v.clone()).unwrap();
+        run_mx(&sc);
+        let mut evs = trace::take();
+        annotate_mx(&mut evs);
+        trace::append_ndjson(&mut out, &evs).unwrap();
+        // closes that overlapped a merge (began while a merge was in progress)
+        let mut open = 0i64;
+        let mut overlapped = 0;
+        let mut nonempty_mid = 0;
+        let last_c = evs.iter().filter(|e| e["ev"] == "CloseStart").count() as i64;
+        for e in &evs {
+            match e["ev"].as_str().unwrap() {
+                "MergeStart" => open += 1,
+                "MergeEnd" => open -= 1,
+                "CloseStart" if open > 0 => overlapped += 1,
+                "CloseEnd" if e["c"].as_i64().unwrap() < last_c && e["n"].as_i64().unwrap() > 0 => nonempty_mid += 1,
+                _ => {}
+            }
+        }
+        let m = json!({"id": sc.id, "first_line": line, "last_line": line + evs.len() - 1, "events": evs.len(),
+                       "closes": last_c, "closes_overlapping_a_merge": overlapped, "nonempty_mid_closes": nonempty_mid, "scenario": v});
+        line += evs.len();
+        serde_json::to_writer(&mut meta, &m).unwrap();
+        meta.write_all(b"\n").unwrap();
+    }
+    out.flush().unwrap();
+    meta.flush().unwrap();
+    std::process::exit(0);
+}
+
 fn main() {
     std::panic::set_hook(Box::new(|_| {}));
     let (cmd, a) = util::args();
     match cmd.as_str() {
         "replay" => cmd_replay(&a),
         "record" => cmd_record(&a),
+        "mutexrace" => cmd_mutexrace(&a),
         _ => {
-            eprintln!("usage: agg replay|record ...");
+            eprintln!("usage: agg replay|record|mutexrace ...");
             std::process::exit(2);
         }
     }
